@@ -286,8 +286,7 @@ def intern_view(ctx, v: VStr):
     sol = getattr(ctx, "sol", None)
     if sol is not None:
         cands = [w for w in lst if w.lo.get_id() == lid or w.hi.get_id() == hid]
-        cands += [w for w in reversed(lst) if not any(w is x for x in cands)]
-        for w in cands[:10]:
+        for w in cands[:6]:
             if sol.check(z3.Not(z3.And(w.lo == v.lo, w.hi == v.hi)), timeout_ms=400) == z3.unsat:
                 sol.nintern = getattr(sol, "nintern", 0) + 1
                 return w
